@@ -6,6 +6,8 @@ import Ptn.C02.ContractWF
 import Ptn.C02.SplitWF
 import Ptn.C02.OpsWF
 import Ptn.C02.TruncWF
+import Ptn.C02.BuildLabels
+import Ptn.C02.Progress
 /-! Property theorems for C02.  Only property theorems and non-vacuity examples live here (part 1,
 the Node machine, is in `NodeProps.lean`, imported here); helper lemmas are in `Lemmas.lean`,
 `NodeSpec.lean`, `TTNLemmas.lean`, `ContractSpec.lean`, ….
@@ -66,29 +68,8 @@ theorem split_in_node_keeps_parent_spec (inL outL : TTN.LegSpec) (outId p : Id) 
     (hIc : Ic.length = inL.childLegs.length) (hnd : (outId :: inL.childLegs).Nodup) :
     ∃ nn, TTN.buildInNode (b :: a :: (Ic ++ Io)) inL outL outId = some nn ∧ WFN nn ∧
       nn.shp = shapeOf (b :: a :: (Ic ++ Io)) ∧ nn.parent = some p ∧ nn.children = outId :: inL.childLegs ∧
-      transposeT (b :: a :: (Ic ++ Io)) nn.perm = some (a :: b :: (Ic ++ Io)) := by
-  have hn : (b :: a :: (Ic ++ Io)).length = 1 + 1 + inL.childLegs.length + Io.length := by
-    simp [hIc]; omega
-  have hc := in_node_closed_parent (b :: a :: (Ic ++ Io)) inL outL outId p Io.length hp hroot hn hnd
-  have hperm : ([1] ++ ([0] ++ List.range' 2 inL.childLegs.length) ++ List.range' (2 + inL.childLegs.length) Io.length).Perm
-      (List.range (b :: a :: (Ic ++ Io)).length) := by
-    have := range_five 1 1 inL.childLegs.length Io.length 0
-    rw [hn]
-    simp only [Nat.add_zero] at this
-    rw [this]
-    simpa using List.Perm.swap 0 1 (List.range' 2 inL.childLegs.length ++ List.range' (2 + inL.childLegs.length) Io.length)
-  refine ⟨_, hc, ?_, rfl, rfl, rfl, ?_⟩
-  · exact wfn_of_perm_range _ _ _ _ _ hperm (by simp [shapeOf]) (by simp; omega)
-  · apply transposeT_of_map _ _ _ (by rw [hperm.length_eq, List.length_range]) (hperm.symm.nodup List.nodup_range)
-    have r3 := map_getElem?_range'_gen [b, a] Ic Io
-    have r4 := map_getElem?_range'_gen ([b, a] ++ Ic) Io []
-    simp only [List.length_cons, List.length_nil, Nat.zero_add, List.append_nil, List.length_append] at r3 r4
-    simp only [List.map_append, List.map_cons, List.map_nil]
-    rw [← hIc]
-    have e : [b, a] ++ Ic ++ Io = b :: a :: (Ic ++ Io) := by simp
-    rw [e] at r3 r4
-    rw [r3, r4]
-    simp
+      transposeT (b :: a :: (Ic ++ Io)) nn.perm = some (a :: b :: (Ic ++ Io)) :=
+  in_node_parent_logical inL outL outId p b a Ic Io hp hroot hIc hnd
 
 /-- in becomes the root (its specification has `is_root`). -/
 theorem split_in_node_root_spec (inL outL : TTN.LegSpec) (outId : Id) (b : Axis) (Ic Io : Tensor)
@@ -96,12 +77,8 @@ theorem split_in_node_root_spec (inL outL : TTN.LegSpec) (outId : Id) (b : Axis)
     (hIc : Ic.length = inL.childLegs.length) (hnd : (outId :: inL.childLegs).Nodup) :
     ∃ nn, TTN.buildInNode (b :: (Ic ++ Io)) inL outL outId = some nn ∧ WFN nn ∧
       nn.shp = shapeOf (b :: (Ic ++ Io)) ∧ nn.parent = none ∧ nn.children = outId :: inL.childLegs ∧
-      transposeT (b :: (Ic ++ Io)) nn.perm = some (b :: (Ic ++ Io)) := by
-  have hn : (b :: (Ic ++ Io)).length = 1 + inL.childLegs.length + Io.length := by simp [hIc]; omega
-  have hc := in_node_closed_root (b :: (Ic ++ Io)) inL outL outId Io.length hp hroot hop hn hnd
-  refine ⟨_, hc, ?_, rfl, rfl, rfl, ?_⟩
-  · exact wfn_of_perm_range _ _ _ _ _ (List.Perm.refl _) (by simp [shapeOf]) (by simp [hIc] <;> omega)
-  · exact transposeT_of_map _ _ _ (by simp) List.nodup_range (map_getElem?_range _)
+      transposeT (b :: (Ic ++ Io)) nn.perm = some (b :: (Ic ++ Io)) :=
+  in_node_root_logical inL outL outId b Ic Io hp hroot hop hIc hnd
 
 /-- in becomes the child of the out-node. -/
 theorem split_in_node_child_spec (inL outL : TTN.LegSpec) (outId : Id) (b : Axis) (Ic Io : Tensor)
@@ -109,12 +86,8 @@ theorem split_in_node_child_spec (inL outL : TTN.LegSpec) (outId : Id) (b : Axis
     (hIc : Ic.length = inL.childLegs.length) (hnd : inL.childLegs.Nodup) :
     ∃ nn, TTN.buildInNode (b :: (Ic ++ Io)) inL outL outId = some nn ∧ WFN nn ∧
       nn.shp = shapeOf (b :: (Ic ++ Io)) ∧ nn.parent = some outId ∧ nn.children = inL.childLegs ∧
-      transposeT (b :: (Ic ++ Io)) nn.perm = some (b :: (Ic ++ Io)) := by
-  have hn : (b :: (Ic ++ Io)).length = 1 + inL.childLegs.length + Io.length := by simp [hIc]; omega
-  have hc := in_node_closed_child (b :: (Ic ++ Io)) inL outL outId Io.length hp hroot hn hnd
-  refine ⟨_, hc, ?_, rfl, rfl, rfl, ?_⟩
-  · exact wfn_of_perm_range _ _ _ _ _ (List.Perm.refl _) (by simp [shapeOf]) (by simp [hIc] <;> omega)
-  · exact transposeT_of_map _ _ _ (by simp) List.nodup_range (map_getElem?_range _)
+      transposeT (b :: (Ic ++ Io)) nn.perm = some (b :: (Ic ++ Io)) :=
+  in_node_child_logical inL outL outId b Ic Io hp hroot hIc hnd
 
 /-- out becomes the child of the in-node (in keeps the parent or becomes the root): the new bond, last
     axis of the out array, becomes the parent leg. -/
@@ -124,26 +97,8 @@ theorem split_out_node_child_spec (outL inL : TTN.LegSpec) (inId : Id) (b : Axis
     (hOc : Oc.length = outL.childLegs.length) (hnd : outL.childLegs.Nodup) :
     ∃ nn, TTN.buildOutNode (Oc ++ Oo ++ [b]) outL inL inId = some nn ∧ WFN nn ∧
       nn.shp = shapeOf (Oc ++ Oo ++ [b]) ∧ nn.parent = some inId ∧ nn.children = outL.childLegs ∧
-      transposeT (Oc ++ Oo ++ [b]) nn.perm = some (b :: (Oc ++ Oo)) := by
-  have hn : (Oc ++ Oo ++ [b]).length = outL.childLegs.length + Oo.length + 1 := by simp [hOc] <;> omega
-  have hc := out_node_closed_child (Oc ++ Oo ++ [b]) outL inL inId Oo.length hp hroot hin hn hnd
-  have hperm : ([outL.childLegs.length + Oo.length] ++ List.range' 0 outL.childLegs.length ++
-      List.range' outL.childLegs.length Oo.length).Perm (List.range (Oc ++ Oo ++ [b]).length) := by
-    have := range_five outL.childLegs.length Oo.length 1 0 0
-    rw [hn]
-    simp only [Nat.add_zero] at this
-    rw [this]
-    perm_blocks
-  refine ⟨_, hc, ?_, rfl, rfl, rfl, ?_⟩
-  · exact wfn_of_perm_range _ _ _ _ _ hperm (by simp [shapeOf]) (by simp; omega)
-  · apply transposeT_of_map _ _ _ (by rw [hperm.length_eq, List.length_range]) (hperm.symm.nodup List.nodup_range)
-    obtain ⟨r1, r2, r3, -, -⟩ := five_blocks_read Oc Oo [b] [] []
-    simp only [List.append_nil, List.length_cons, List.length_nil] at r1 r2 r3
-    simp only [List.map_append, List.map_cons, List.map_nil]
-    rw [← hOc, r1, r2]
-    have hb : (Oc ++ Oo ++ [b])[Oc.length + Oo.length]? = some b := by simp
-    rw [hb]
-    simp
+      transposeT (Oc ++ Oo ++ [b]) nn.perm = some (b :: (Oc ++ Oo)) :=
+  out_node_child_logical outL inL inId b Oc Oo hp hroot hin hOc hnd
 
 /-- out keeps the parent: the new bond becomes the **first child** leg. -/
 theorem split_out_node_keeps_parent_spec (outL inL : TTN.LegSpec) (inId p : Id) (b a : Axis)
@@ -152,33 +107,8 @@ theorem split_out_node_keeps_parent_spec (outL inL : TTN.LegSpec) (inId p : Id) 
     (hOc : Oc.length = outL.childLegs.length) (hnd : (inId :: outL.childLegs).Nodup) :
     ∃ nn, TTN.buildOutNode (a :: (Oc ++ Oo) ++ [b]) outL inL inId = some nn ∧ WFN nn ∧
       nn.shp = shapeOf (a :: (Oc ++ Oo) ++ [b]) ∧ nn.parent = some p ∧ nn.children = inId :: outL.childLegs ∧
-      transposeT (a :: (Oc ++ Oo) ++ [b]) nn.perm = some (a :: b :: (Oc ++ Oo)) := by
-  have hn : (a :: (Oc ++ Oo) ++ [b]).length = 1 + outL.childLegs.length + Oo.length + 1 := by
-    simp [hOc]; omega
-  have hc := out_node_closed_parent (a :: (Oc ++ Oo) ++ [b]) outL inL inId p Oo.length hp hroot hin1 hin2 hn hnd
-  have hperm : ([0] ++ ([1 + outL.childLegs.length + Oo.length] ++ List.range' 1 outL.childLegs.length) ++
-      (List.range' (1 + outL.childLegs.length) Oo.length ++ [])).Perm
-      (List.range (a :: (Oc ++ Oo) ++ [b]).length) := by
-    have := range_five 1 outL.childLegs.length Oo.length 1 0
-    rw [hn]
-    simp only [Nat.add_zero] at this
-    rw [this]
-    perm_blocks
-  refine ⟨_, hc, ?_, rfl, rfl, rfl, ?_⟩
-  · exact wfn_of_perm_range _ _ _ _ _ hperm (by simp [shapeOf]) (by simp; omega)
-  · apply transposeT_of_map _ _ _ (by rw [hperm.length_eq, List.length_range]) (hperm.symm.nodup List.nodup_range)
-    obtain ⟨r1, r2, r3, r4, -⟩ := five_blocks_read [a] Oc Oo [b] []
-    simp only [List.append_nil, List.length_cons, List.length_nil, Nat.zero_add] at r1 r2 r3 r4
-    have e : [a] ++ Oc ++ Oo ++ [b] = a :: (Oc ++ Oo) ++ [b] := by simp
-    rw [e] at r1 r2 r3 r4
-    simp only [List.map_append, List.map_cons, List.map_nil]
-    rw [← hOc, r2, r3]
-    have h0 : (a :: (Oc ++ Oo) ++ [b])[0]? = some a := by simp
-    have hb : (a :: (Oc ++ Oo) ++ [b])[1 + Oc.length + Oo.length]? = some b := by
-      have := r4
-      simpa using this
-    rw [h0, hb]
-    simp
+      transposeT (a :: (Oc ++ Oo) ++ [b]) nn.perm = some (a :: b :: (Oc ++ Oo)) :=
+  out_node_parent_logical outL inL inId p b a Oc Oo hp hroot hin1 hin2 hOc hnd
 
 /-- out becomes the root: the new bond becomes the first child leg. -/
 theorem split_out_node_root_spec (outL inL : TTN.LegSpec) (inId : Id) (b : Axis) (Oc Oo : Tensor)
@@ -187,26 +117,8 @@ theorem split_out_node_root_spec (outL inL : TTN.LegSpec) (inId : Id) (b : Axis)
     (hOc : Oc.length = outL.childLegs.length) (hnd : (inId :: outL.childLegs).Nodup) :
     ∃ nn, TTN.buildOutNode (Oc ++ Oo ++ [b]) outL inL inId = some nn ∧ WFN nn ∧
       nn.shp = shapeOf (Oc ++ Oo ++ [b]) ∧ nn.parent = none ∧ nn.children = inId :: outL.childLegs ∧
-      transposeT (Oc ++ Oo ++ [b]) nn.perm = some (b :: (Oc ++ Oo)) := by
-  have hn : (Oc ++ Oo ++ [b]).length = outL.childLegs.length + Oo.length + 1 := by simp [hOc] <;> omega
-  have hc := out_node_closed_root (Oc ++ Oo ++ [b]) outL inL inId Oo.length hp hroot hin1 hin2 hn hnd
-  have hperm : ([] ++ ([outL.childLegs.length + Oo.length] ++ List.range' 0 outL.childLegs.length) ++
-      (List.range' outL.childLegs.length Oo.length ++ [])).Perm (List.range (Oc ++ Oo ++ [b]).length) := by
-    have := range_five outL.childLegs.length Oo.length 1 0 0
-    rw [hn]
-    simp only [Nat.add_zero] at this
-    rw [this]
-    perm_blocks
-  refine ⟨_, hc, ?_, rfl, rfl, rfl, ?_⟩
-  · exact wfn_of_perm_range _ _ _ _ _ hperm (by simp [shapeOf]) (by simp; omega)
-  · apply transposeT_of_map _ _ _ (by rw [hperm.length_eq, List.length_range]) (hperm.symm.nodup List.nodup_range)
-    obtain ⟨r1, r2, r3, -, -⟩ := five_blocks_read Oc Oo [b] [] []
-    simp only [List.append_nil, List.length_cons, List.length_nil] at r1 r2 r3
-    simp only [List.map_append, List.map_cons, List.map_nil, List.nil_append]
-    rw [← hOc, r1, r2]
-    have hb : (Oc ++ Oo ++ [b])[Oc.length + Oo.length]? = some b := by simp
-    rw [hb]
-    simp
+      transposeT (Oc ++ Oo ++ [b]) nn.perm = some (b :: (Oc ++ Oo)) :=
+  out_node_root_logical outL inL inId b Oc Oo hp hroot hin1 hin2 hOc hnd
 
 /-! Non-vacuity: the six configurations on concrete arrays (bond label 99). -/
 example :
@@ -266,7 +178,7 @@ theorem contract_nodes_structure {t t' : TTN} {id1 id2 new : Id} (h : t.WF)
       (∀ k, dget t'.tensors k = if k = new then some newT
                                 else if k = pid ∨ k = cid then none else dget t.tensors k) ∧
       t'.root = (if P.parent = none then some new else t.root) := by
-  obtain ⟨pid, cid, P, C, nn, newT, hP, hC, hCp, hids, _, n1, _, _, _, n5, _, a1, a2, a3, a4, a5, a6⟩ :=
+  obtain ⟨pid, cid, P, C, nn, newT, hP, hC, hCp, hids, _, n1, _, _, _, n5, _, a1, a2, a3, a4, a5, a6, _⟩ :=
     contract_final h hnew hc
   exact ⟨pid, cid, P, C, nn, newT, hP, hC, hCp, hids, a1, n1, n5, a2, a3, a4, a5, a6⟩
 
@@ -297,7 +209,7 @@ theorem split_nodes_structure {t t' : TTN} {id : Id} {X : NodeS} {outL inL : TTN
         (t.N k = none → t'.N k = none) ∧
         (∀ n, t.N k = some n → ∃ n', t'.N k = some n' ∧ SRel id a b aCh k n n')) ∧
       t'.root = (if X.parent = none then some a else t.root) := by
-  obtain ⟨a, b, aCh, bCh, na, nb, _, _, hcfg, _, hNa, hNb, p1, p2, p3, p4, _, _, _, _, hid, hby, _, hR, _⟩ :=
+  obtain ⟨a, b, aCh, bCh, na, nb, _, _, hcfg, _, hNa, hNb, p1, p2, p3, p4, _, _, _, _, hid, hby, _, hR, _, _⟩ :=
     split_final h adm hs
   exact ⟨a, b, aCh, bCh, na, nb, hcfg, hNa, hNb, p1, p2, p3, p4, hid, hby, hR⟩
 
@@ -384,8 +296,8 @@ The algorithms never call a structural edit alone: they split a node and contrac
 neighbour (`_update_link`, `split_qr_contract_r_to_neighbour`), contract two nodes and split them again
 (`_update_two_site_nodes`, `contract_and_split_with_parent`), or insert, split and re-contract projectors
 (`recursive_truncation`).  `Composite.lean` models these line by line; the readable, per-operation statements
-(including the exact child order afterwards) are exported as `Ptn.C06.*_structure_partial`
-(`Ptn/C06/Structure.lean`) and `Ptn.C10.*_structure_partial` (`Ptn/C10/Tree.lean`). -/
+(including the exact child order afterwards and the open legs of every node) are exported as
+`Ptn.C06.*_structure` (`Ptn/C06/Structure.lean`) and `Ptn.C10.*_structure` (`Ptn/C10/Tree.lean`). -/
 
 /-- **Every sequence of composite edits** – tensor accesses, one-site link updates, two-site updates, centre
     moves, `contract_and_split_with_parent` – each with an unused temporary identifier and any new bond
@@ -416,5 +328,228 @@ example : ∃ t t' t'', TRun TTN.empty
   ⟨_, _, _, .cons ⟨rfl, rfl⟩ rfl (.cons trivial rfl (.cons trivial rfl (.cons trivial rfl (.nil _)))),
     .cons rfl rfl (.cons trivial rfl (.cons rfl rfl (.cons rfl rfl (.cons rfl rfl (.nil _))))),
     rfl, rfl, rfl, rfl⟩
+
+/-! ### Part 5 — the network-level label invariant
+
+Every stored axis carries a label and a dimension (`Axis`).  For a node `k`, `t.Leg k x ax` says that the
+leg of `k` towards its neighbour `x` is the axis `ax`; `t.openAxes k` are its open axes in order;
+`t.openList` lists the open axes of the whole network by node identifier, then by position.
+
+`TTN.LWF` (**label well-formedness**): `∀ k x ax, t.Leg k x ax → t.Leg x k ax` – the two ends of every bond
+are the same axis: *partner labels, equal dimension*.
+
+The theorems below say, operation by operation, where every leg and every open axis goes; that `LWF` is
+preserved; and that open axes are never created, lost or duplicated (`openList` changes by a permutation
+only).  `insert_identity` adds a partner pair carrying the label of the bond it subdivides, nothing else. -/
+
+/-- A plain access changes no logical tensor, no leg, no open axis. -/
+theorem access_preserves_labels {t t1 : TTN} {id : Id} {T : Tensor} (hl : t.LWF)
+    (ha : t.access id = some (t1, T)) :
+    t1.LWF ∧ t.logical id = some T ∧ (∀ k, t1.openAxes k = t.openAxes k) ∧ t1.openList.Perm t.openList :=
+  ⟨access_lwf hl ha, (access_labels ha).1, (access_labels ha).2.2.2, access_openList ha⟩
+
+/-- **`contract_nodes` at the level of labels.**  The label invariant is preserved; the new node has the legs
+    of the two contracted nodes except the contracted bond, each with the axis it had (`contract_labels` has
+    the leg-by-leg statement); its open axes are those of `node_id1` followed by those of `node_id2`; the two
+    old identifiers have no axes any more; every other node keeps its open axes; the open axes of the network
+    are the same up to order. -/
+theorem contract_nodes_labels {t t' : TTN} {id1 id2 new : Id} (h : t.WF) (hl : t.LWF)
+    (hnew : new = id1 ∨ new = id2 ∨ t.N new = none)
+    (hc : t.contractNodes id1 id2 new = some t') :
+    t'.LWF ∧ t'.openAxes new = t.openAxes id1 ++ t.openAxes id2 ∧
+    (∀ k, k ≠ new → (k = id1 ∨ k = id2) → t'.openAxes k = []) ∧
+    (∀ k, k ≠ new → k ≠ id1 → k ≠ id2 → t'.openAxes k = t.openAxes k) ∧
+    t'.openList.Perm t.openList := by
+  obtain ⟨pid, cid, hids, _, _, _, _, _, cnew, cgone, cby⟩ := contract_labels h hnew hc
+  refine ⟨contract_lwf h hl hnew hc, cnew, ?_, ?_, contract_openList h hnew hc⟩
+  · intro k hk hk2
+    refine (cgone k hk ?_).2
+    rcases hids with ⟨e1, e2⟩ | ⟨e1, e2⟩
+    · rw [e1, e2]; exact hk2
+    · rw [e1, e2]; exact hk2.symm
+  · intro k hk h1 h2
+    refine (cby k hk ?_ ?_).2
+    · rcases hids with ⟨e1, _⟩ | ⟨e1, _⟩
+      · rw [e1]; exact h1
+      · rw [e1]; exact h2
+    · rcases hids with ⟨_, e2⟩ | ⟨_, e2⟩
+      · rw [e2]; exact h2
+      · rw [e2]; exact h1
+
+/-- **`split_nodes` at the level of labels.**  The label invariant is preserved (the new bond carries the
+    fresh label at both ends; `split_labels` has the leg-by-leg statement); the open axes of the out- and of the
+    in-node are those their specifications select, in that order (`pick L legs` reads the logical axes `L` of
+    the split node at the given positions); together they are exactly the open axes of the split node; every
+    other node keeps its open axes; the open axes of the network are the same up to order. -/
+theorem split_nodes_labels {t t' : TTN} {id : Id} {X : NodeS} {outL inL : TTN.LegSpec} {outId inId : Id}
+    {bd : Nat} (h : t.WF) (hl : t.LWF) (adm : SplitAdm t id X outL inL outId inId)
+    (hs : t.splitNodes id outL inL outId inId bd = some t') :
+    t'.LWF ∧ (∃ L, t.logical id = some L ∧
+      t'.openAxes outId = pick L outL.openLegs ∧ t'.openAxes inId = pick L inL.openLegs) ∧
+    (t'.openAxes outId ++ t'.openAxes inId).Perm (t.openAxes id) ∧
+    (∀ k, k ≠ outId → k ≠ inId → k ≠ id → t'.openAxes k = t.openAxes k) ∧
+    t'.openList.Perm t.openList := by
+  obtain ⟨a, b, _, _, L, hcfg, _, hlogL, _, _, _, _, so, si, hopen, _, sby⟩ := split_labels h adm hs
+  refine ⟨split_lwf h hl adm hs, ⟨L, hlogL, so, si⟩, hopen, ?_, split_openList h adm hs⟩
+  intro k h1 h2 h3
+  have : k ≠ a ∧ k ≠ b := by
+    rcases hcfg with ⟨e1, e2, _⟩ | ⟨e1, e2, _⟩
+    · rw [e1, e2]; exact ⟨h1, h2⟩
+    · rw [e1, e2]; exact ⟨h2, h1⟩
+  exact (sby k this.1 this.2 h3).2
+
+/-- **`insert_identity` at the level of labels**: the identity node has exactly two legs, both carrying the
+    axis of the bond it subdivides (a partner pair), and no open axis; nothing else changes. -/
+theorem insert_identity_labels {t t' : TTN} {cid pid new : Id} (h : t.WF) (hl : t.LWF) (hnew : t.N new = none)
+    (hs : t.insertIdentity cid pid new = some t') :
+    t'.LWF ∧ (∃ ax, t.Leg cid pid ax ∧ t'.legPairs new = [(pid, ax), (cid, ax)]) ∧ t'.openAxes new = [] ∧
+    (∀ k, k ≠ new → t'.openAxes k = t.openAxes k) ∧ t'.openList.Perm t.openList := by
+  obtain ⟨ax, hax, c1, c2, c3⟩ := ident_labels h hnew hs
+  exact ⟨ident_lwf h hl hnew hs, ⟨ax, hax, c1⟩, c2, fun k hk => (c3 k hk).2, ident_openList h hnew hs⟩
+
+/-- **`change_node_identifier` at the level of labels**: the renamed node keeps all its legs and open axes. -/
+theorem change_node_identifier_labels {t t' : TTN} {new old : Id} (h : t.WF) (hl : t.LWF)
+    (hnew : new = old ∨ t.N new = none) (hs : t.changeNodeIdentifier new old = some t') :
+    t'.LWF ∧ t'.legPairs new = t.legPairs old ∧ t'.openAxes new = t.openAxes old ∧
+    (∀ k, k ≠ new → k ≠ old → t'.openAxes k = t.openAxes k) ∧ t'.openList.Perm t.openList := by
+  obtain ⟨_, c1, c2, _, c4⟩ := rename_labels h hnew hs
+  exact ⟨rename_lwf h hl hnew hs, c1, c2, fun k h1 h2 => (c4 k h1 h2).2, rename_openList h hnew hs⟩
+
+/-- **`replace_tensor` with a permutation** (the same array, axes stored in another order) changes no logical
+    tensor, no leg, no open axis. -/
+theorem replace_tensor_labels {t t' : TTN} {id : Id} {p : Option (List Nat)} (h : t.WF) (hl : t.LWF)
+    (hp : ∀ q, p = some q → q.Perm (List.range q.length))
+    (hs : t.replaceTensorPermuted id p = some t') :
+    t'.LWF ∧ (∀ k, t'.logical k = t.logical k) ∧ (∀ k, t'.openAxes k = t.openAxes k) ∧
+    t'.openList.Perm t.openList :=
+  ⟨rtp_lwf h hl hp hs, fun k => (rtp_labels h hp hs k).1, fun k => (rtp_labels h hp hs k).2.2,
+    rtp_openList h hp hs⟩
+
+/-- **`add_child_to_parent` at the level of labels**: when the bond axis of the new tensor is the axis of the
+    parent's open leg it is attached to (`ChildLAdm`; the code compares only the dimensions), the label
+    invariant is preserved. -/
+theorem add_child_to_parent_labels {t t' : TTN} {cid pid : Id} {T : Tensor} {cl pl : Nat} (h : t.WF)
+    (hl : t.LWF) (hadm : ChildLAdm t T cl pid pl) (hs : t.addChildToParent cid T cl pid pl = some t') :
+    t'.LWF :=
+  add_child_lwf h hl hadm hs
+
+/-- **Every admissible, label-admissible history keeps the network well-formed and label-consistent**
+    (extension of `ops_preserve_wf`): after any interleaving of contractions, splits, identity insertions,
+    identifier changes, tensor replacements, accesses and additions of children with matching bond axes, the
+    two ends of every bond carry the same label and dimension. -/
+theorem ops_preserve_labels {t t' : TTN} {ops : List TOp} (h : t.WF) (hl : t.LWF) (hr : TRunL t ops t') :
+    t'.WF ∧ t'.LWF :=
+  runL_labels h hl hr
+
+/-- … in particular every network built from nothing with matching bond labels. -/
+theorem built_networks_labels {t' : TTN} {id : Id} {T : Tensor} {ops : List TOp}
+    (hr : TRunL TTN.empty (.root id T :: ops) t') : t'.WF ∧ t'.LWF :=
+  builtL_labels hr
+
+/-- **The open labels of the network are invariant**: after any history of admissible edits (everything
+    except the construction steps) the list of open axes of the network, in canonical order (by node identifier,
+    then position), is a permutation of the initial one – open legs move between nodes as the per-operation
+    theorems say, but are never created, lost or duplicated; and the network is still well-formed and
+    label-consistent. -/
+theorem contraction_labels_invariant {t t' : TTN} {ops : List TOp} (h : t.WF) (hl : t.LWF)
+    (hr : TRun t ops t') (he : ∀ op ∈ ops, op.isEdit) :
+    t'.WF ∧ t'.LWF ∧ t'.openList.Perm t.openList :=
+  edits_run_labels h hl hr he
+
+/-- **Composite edits keep every open leg where it is**: after any sequence of accesses, link updates, two-site
+    updates, centre moves and contract-and-splits the network is well-formed and label-consistent, root and tree
+    are preserved, and every node has exactly the open axes it had (labels, order, dimensions). -/
+theorem composite_edits_preserve_labels {t t' : TTN} {es : List TdvpEvent} (h : t.WF) (hl : t.LWF)
+    (hr : TdvpRun t es t') :
+    t'.WF ∧ t'.LWF ∧ t'.root = t.root ∧ TreeEq t.S t'.S ∧ ∀ k, t'.openAxes k = t.openAxes k :=
+  tdvp_run_labels h hl hr
+
+/-- **`recursive_truncation` keeps every open leg where it is.** -/
+theorem recursive_truncation_preserves_labels {t t' : TTN} {kdim : Id → Nat} (h : t.WF) (hl : t.LWF)
+    (hs : t.recursiveTruncation kdim = some t') :
+    t'.WF ∧ t'.LWF ∧ t'.root = t.root ∧ t'.S = t.S ∧ ∀ k, t'.openAxes k = t.openAxes k :=
+  recursive_truncation_labels h hl hs
+
+/-- Non-vacuity: the history of Part 3 (root, child with matching bond label `100`, access, contraction, split
+    with identifier reuse and root transfer, renaming, identity insertion, tensor replacement) is label-admissible;
+    so the final network is well-formed and label-consistent.  Its edits leave the open axes `⟨0,2⟩, ⟨1,2⟩, ⟨2,2⟩`
+    of the network in place up to order. -/
+example : ∃ t', TRunL TTN.empty
+    [.root 1 [⟨0, 2⟩, ⟨100, 3⟩, ⟨1, 2⟩],
+     .child 2 [⟨2, 2⟩, ⟨100, 3⟩] 1 1 1,
+     .access 1,
+     .contract 2 1 3,
+     .split 3 ⟨none, [], [1], false⟩ ⟨none, [], [0, 2], true⟩ 3 4 2,
+     .rename 5 4,
+     .ident 3 5 6,
+     .rtp 5 (some [2, 0, 1])] t' ∧ t'.WF ∧ t'.LWF ∧
+    t'.openAxes 3 = [⟨0, 2⟩] ∧ t'.openAxes 5 = [⟨2, 2⟩, ⟨1, 2⟩] ∧ t'.openAxes 6 = [] := by
+  have hrun : ∃ t', TRunL TTN.empty
+      [.root 1 [⟨0, 2⟩, ⟨100, 3⟩, ⟨1, 2⟩],
+       .child 2 [⟨2, 2⟩, ⟨100, 3⟩] 1 1 1,
+       .access 1,
+       .contract 2 1 3,
+       .split 3 ⟨none, [], [1], false⟩ ⟨none, [], [0, 2], true⟩ 3 4 2,
+       .rename 5 4,
+       .ident 3 5 6,
+       .rtp 5 (some [2, 0, 1])] t' ∧
+      t'.openAxes 3 = [⟨0, 2⟩] ∧ t'.openAxes 5 = [⟨2, 2⟩, ⟨1, 2⟩] ∧ t'.openAxes 6 = [] := by
+    exact ⟨_,
+      .cons ⟨rfl, rfl⟩ trivial rfl
+      (.cons trivial ⟨_, rfl, rfl⟩ rfl
+      (.cons trivial trivial rfl
+      (.cons (Or.inr (Or.inr rfl)) trivial rfl
+      (.cons ⟨_, ⟨rfl, Or.inl rfl, Or.inr rfl, List.Perm.refl _,
+          Or.inr ⟨rfl, rfl, rfl, Or.inr ⟨rfl, rfl⟩⟩⟩⟩ trivial rfl
+      (.cons (Or.inr rfl) trivial rfl
+      (.cons rfl trivial rfl
+      (.cons (fun q hq => by cases hq; decide) trivial rfl
+      (.nil _)))))))), rfl, rfl, rfl⟩
+  obtain ⟨t', hr, o1, o2, o3⟩ := hrun
+  exact ⟨t', hr, (built_networks_labels hr).1, (built_networks_labels hr).2, o1, o2, o3⟩
+
+/-! ### Part 6 — progress: admissible calls never raise
+
+The theorems above have the form "if the call returns, then …".  Here the converse for the two central
+operations: under a *computable* admissibility test on the state and the arguments (`admissibleB`:
+`contractAdmB` – the two nodes exist and are adjacent, the new identifier is one of the two or unused;
+`splitAdmB` – the node exists, the new identifiers differ and are the old one or unused, the child identifiers
+of the two specifications partition the children, their open legs partition the open legs, exactly one side
+takes the parent resp. the root flag) no exception branch of the model is taken.  For `contract_nodes` this
+needs the label invariant: it is what makes the two dimensions compared by `tensordot` agree. -/
+
+/-- **`contract_nodes` on two adjacent nodes never raises** (well-formed, label-consistent network; new
+    identifier one of the two or unused). -/
+theorem contract_nodes_never_errors {t : TTN} (h : t.WF) (hl : t.LWF) {id1 id2 new : Id}
+    (hadm : contractAdmB t id1 id2 new = true) : ∃ t', t.contractNodes id1 id2 new = some t' :=
+  contract_nodes_progress h hl hadm
+
+/-- **`split_nodes` with leg specifications that partition the legs never raises** (well-formed network,
+    `SplitAdm`, distinct new identifiers, every open leg named exactly once; any new bond dimension). -/
+theorem split_nodes_never_errors {t : TTN} (h : t.WF) {id : Id} {X : NodeS} {outL inL : TTN.LegSpec}
+    {outId inId : Id} (bd : Nat) (adm : SplitAdm t id X outL inL outId inId) (hoi : outId ≠ inId)
+    (hopen : (outL.openLegs ++ inL.openLegs).Perm (List.range' X.nvirt (X.nlegs - X.nvirt))) :
+    ∃ t', t.splitNodes id outL inL outId inId bd = some t' :=
+  split_nodes_progress h bd adm hoi hopen
+
+/-- **Admissible calls never raise**: for accesses, contractions and splits that pass the computable test
+    `admissibleB` the model call returns a network, the call is admissible in the sense of `ops_preserve_wf`,
+    and the result is again well-formed and label-consistent (so the statement can be iterated). -/
+theorem admissible_never_errors {t : TTN} (h : t.WF) (hl : t.LWF) (op : TOp)
+    (hadm : admissibleB t op = true) :
+    ∃ t', t.step op = some t' ∧ op.Adm t ∧ t'.WF ∧ t'.LWF :=
+  admissible_never_errors_aux h hl op hadm
+
+/-- Non-vacuity: on the two-node network `1 — 2` built from nothing the contraction `(2, 1) ↦ 3` passes the
+    test, and so does – on the result – the split of `3` with the out-side taking open leg `1`, the in-side (the
+    root) open legs `0, 2`; a contraction of non-adjacent / missing nodes and a split that forgets an open leg
+    do not. -/
+example : ∃ t, TRunL TTN.empty
+    [.root 1 [⟨0, 2⟩, ⟨100, 3⟩, ⟨1, 2⟩], .child 2 [⟨2, 2⟩, ⟨100, 3⟩] 1 1 1] t ∧
+    admissibleB t (.contract 2 1 3) = true ∧ admissibleB t (.contract 2 5 3) = false ∧
+    (∃ t1, t.step (.contract 2 1 3) = some t1 ∧
+      admissibleB t1 (.split 3 ⟨none, [], [1], false⟩ ⟨none, [], [0, 2], true⟩ 3 4 2) = true ∧
+      admissibleB t1 (.split 3 ⟨none, [], [1], false⟩ ⟨none, [], [0], true⟩ 3 4 2) = false) :=
+  ⟨_, .cons ⟨rfl, rfl⟩ trivial rfl (.cons trivial ⟨_, rfl, rfl⟩ rfl (.nil _)), rfl, rfl, _, rfl, rfl, rfl⟩
 
 end Ptn.C02
